@@ -8,7 +8,12 @@ second comptime block, in an imported file, or derived from another comptime glo
 called at run time, or the body duplicated textually). Both values are printed leaf by leaf through the same printer function and
 must be equal; the run-time rendering is additionally compared with the value python computed for the body. A fraction of the
 blocks calls libc `puts("CT-k.")` inside the comptime body: the marker must appear in the compiler's output and never in the
-program's output. Pointer / function results, and results that hold a pointer inside an aggregate (struct with a str / slice /
+program's output. Two more program families: (T) global constant arrays `TAB :: T.[A, B, comptime { .. }]` whose elements are comptime
+globals / inline comptime blocks of element types with size != stride (structs ending in a small member, optionals, payload enums, error unions),
+every leaf of every element printed (whole array by value and element-wise with a run-time index) against the array built at run time, plus a comptime
+block reading TAB[j], j >= 1; (S) a `str` comptime global, or a function with a local `str` comptime block, that is read AGAIN by other comptime blocks
+(strlen, byte loop, checksum, byte at index, strcmp) - the reader's comptime value, the same reader at run time over the comptime str, and the printed
+text must all agree with the same code run on the literal. Pointer / function results, and results that hold a pointer inside an aggregate (struct with a str / slice /
 pointer member, ?str, E!str, [n]str, enum with a str payload, slices, any, ?^T), must be rejected with the "cannot return pointers"
 diagnostic and without a crash; a sample of compilations runs under memcheck.
 """
@@ -27,7 +32,9 @@ RULE = ("block = (result type shape, placement of the comptime block, pairing mo
         "has a distinct value; non-trivial = the program was accepted, the run-time copy printed exactly the value python computed for the body and "
         "the comptime copy was printed completely or the program died while printing it; distinct = distinct (shape, placement, mode, feature set) "
         "tuples. side-effect blocks, negative programs (pointer / function results), the generic-function probe and memcheck runs are counted as "
-        "separate evaluations")
+        "separate evaluations. family T: block = (element type shape, table form (typed literal / untyped / annotated through an alias / read through an alias "
+        "global / local const), how each element is supplied, length 2..5) and (form, index) for a comptime block reading an element; family S: block = "
+        "(str global / function-local str comptime, reader kind, placement of the reading comptime block); 12 programs of each family per quick run")
 ASSUME = ["the value of a body is computed in python from the README meaning of literals, + - * / % without overflow, value-preserving casts, control flow, "
           "calls; when the RUN-TIME copy disagrees with python the block is inconclusive (not a C04 matter), only comptime != run time is a violation",
           "padding bytes and tags' padding are not constrained: values are compared leaf by leaf, never as raw bytes; an uninitialised-bytes report of memcheck for "
@@ -237,6 +244,211 @@ def make_program(seed, idx, nblocks=BLOCKS_PER_PROG, padfree=False):
     if ofile:
         files["o.capy"] = "puts :: (s: str) -> i32 extern;\n" + "\n".join(ofile) + "\n"
     return files, metas
+
+
+# --------------------------------------------------------------------------- family T: global constant arrays built from comptime values
+
+def new_meta(k, placement, mode, feats, T, value, reps=1):
+    return {"k": k, "placement": placement, "mode": mode, "feats": sorted(feats), "fx": False, "ptr": False, "reps": reps, "extra": [],
+            "shape": G.shape(T), "kind": T.kind, "exp": [list(x) for x in G.leaves(T, value, 0)]}
+
+
+def make_table_program(seed, idx, ntab=5):
+    """tables `TAB :: T.[A, B, comptime { .. }]` whose elements are comptime globals / inline comptime blocks; element types mostly have
+    size != stride (structs ending in a small member, optionals, payload enums, error unions). Every leaf of every element is printed twice (the
+    whole array by value, then element-wise with a run-time index) and compared with the array built at run time from the same element functions;
+    one more block reads an element with index >= 1 inside another comptime block. -> (files, metas)"""
+    rng = C.Rng(seed, 60000 + idx)
+    env = G.Env(rng)
+    prog = G.Prog(rng, env)
+    ts = G.Ty("struct", "TS", fields=[("big", G.t_int("i64")), ("small", G.t_int(rng.pick(["i8", "u8", "i16"])))])
+    env.decls.append(env.decl_text(ts))
+    globs, fns, blks, metas = [], [], [], []
+    for k in range(ntab):
+        ek = rng.weighted([("ts", 3), ("struct", 5), ("opt", 4), ("enum", 3), ("eu", 3), ("scalar", 1)])
+        ET = ts if ek == "ts" else env.gen_type_of("int") if ek == "scalar" else env.gen_type_of(ek)
+        while G.has_kind(ET, "str") or G.size(ET) > 40:
+            ET = env.gen_type_of(ek)
+        n = rng.range(2, 5)
+        AT = env.arr(ET, n)
+        vals = [G.gen_value(rng, ET) for _ in range(n)]
+        feats = set()
+        prefix = ET.name
+        if ET.kind in ("opt", "eu", "arr"):
+            globs.append(f"EL_{k} :: {ET.name};")
+            prefix = f"EL_{k}"
+        elems, gl_of, rfn = [], {}, list(range(n))
+        for i in range(n):
+            how = rng.weighted([("global", 5), ("inline", 3), ("repeat", 2 if gl_of else 0)])
+            if how == "repeat":
+                j = rng.pick(sorted(gl_of))
+                vals[i], rfn[i] = vals[j], j
+                elems.append(gl_of[j])
+                feats.add("elem_repeated_global")
+                continue
+            ctx = G.Ctx(prog, feats)
+            ctx.in_helper = True        # the element function is shared by the compile-time and the run-time copy
+            e = G.gen(ctx, ET, vals[i], 1)
+            fns.append(f"e_{k}_{i} :: () -> {ET.name} {{\n" + indent(ctx.stmts + [e]) + "}")
+            if how == "global":
+                gl_of[i] = f"A_{k}_{i}"
+                globs.append(f"A_{k}_{i} :: comptime {{ e_{k}_{i}() }};")
+                elems.append(f"A_{k}_{i}")
+                feats.add("elem_comptime_global")
+            else:
+                elems.append(f"comptime {{ e_{k}_{i}() }}")
+                feats.add("elem_inline_comptime")
+        form = rng.pick(["typed_prefix", "untyped", "alias_annot", "via_alias_global", "local_const"])
+        lit = ", ".join(elems)
+        globs.append(f"AT_{k} :: {AT.name};")
+        name, local = f"TAB_{k}", []
+        if form == "typed_prefix":
+            globs.append(f"TAB_{k} :: {prefix}.[{lit}];")
+        elif form == "untyped":
+            globs.append(f"TAB_{k} :: .[{lit}];")
+        elif form == "alias_annot":
+            globs.append(f"TAB_{k} : AT_{k} : .[{lit}];")
+        elif form == "via_alias_global":
+            globs.append(f"TAB_{k} :: {prefix}.[{lit}];")
+            globs.append(f"U_{k} :: TAB_{k};")
+            name = f"U_{k}"
+        else:
+            local = [f"TAB_{k} :: {prefix}.[{lit}];"]
+        BR, BC = k * 1000, k * 1000 + 500
+        pr, pe, sz = env.pr(AT), env.pr(ET), G.size(ET)
+        m = new_meta(k, "const_table/" + form, "table", feats | {f"n{n}"}, AT, vals, reps=2)
+        m["src"] = {"comptime": (local[0] if local else [g for g in globs if g.startswith(f"TAB_{k} ")][0])[:400],
+                    "run_time": f"rt_{k} : AT_{k} = .[" + ", ".join(f"e_{k}_{rfn[i]}()" for i in range(n)) + "];"}
+        metas.append(m)
+        lines = ["vr_flush();", m["src"]["run_time"], f"{pr}({BR}, rt_{k});", "vr_flush();"] + local + [f"{pr}({BC}, {name});"]
+        for i in range(n):
+            lines += [f"ix_{k}_{i} := usize.(vr_opaque_u64({i}));", f"{pe}({BC + i * sz}, {name}[ix_{k}_{i}]);"]
+        blks.append(f"blk_{k} :: () {{\n" + indent(lines) + "}")
+        if not local:
+            # another comptime block reads an element with index >= 1 of the table
+            k2, j = ntab + k, rng.range(1, n - 1)
+            m2 = new_meta(k2, "comptime_reads_table/" + form, "table", {f"index{j}"}, ET, vals[j])
+            m2["src"] = {"comptime": f"comptime {{ {name}[{j}] }}", "run_time": f"e_{k}_{rfn[j]}()"}
+            metas.append(m2)
+            cpl = rng.pick(["glob", "loc_const", "inline"])
+            if cpl == "glob":
+                globs.append(f"RD_{k2} :: comptime {{ {name}[{j}] }};")
+                use = [f"{pe}({k2 * 1000 + 500}, RD_{k2});"]
+            elif cpl == "loc_const":
+                use = [f"x_{k2} :: comptime {{ {name}[{j}] }};", f"{pe}({k2 * 1000 + 500}, x_{k2});"]
+            else:
+                use = [f"{pe}({k2 * 1000 + 500}, comptime {{ {name}[{j}] }});"]
+            blks.append(f"blk_{k2} :: () {{\n" + indent(["vr_flush();", f"rt_{k2} : {ET.name} = e_{k}_{rfn[j]}();", f"{pe}({k2 * 1000}, rt_{k2});", "vr_flush();"] + use) + "}")
+    rng.shuffle(globs)
+    main = "main :: () -> i32 {\n" + "".join(f"    blk_{m['k']}();\n" for m in metas) + f"    vr_ev({END_ID});\n    vr_flush();\n    0\n}}"
+    first, second = ([globs, blks] if rng.chance(1, 2) else [blks, globs])
+    parts = [R.PRELUDE + EXTRA_DECLS] + env.decls + prog.consts + list(prog.helpers.values()) + env.pr_texts() + fns + first + [main] + second
+    return {"main.capy": "\n".join(parts) + "\n"}, metas
+
+
+# --------------------------------------------------------------------------- family S: a comptime str that is read again while compiling
+
+STR_HELPERS = """strlen :: (s: str) -> usize extern;
+strcmp :: (a: str, b: str) -> i32 extern;
+h_len :: (s: str) -> usize { strlen(s) }
+h_len2 :: (s: str) -> usize {
+    p := ^[512]u8.(rawptr.(s));
+    i : usize = 0;
+    while p^[i] != 0 { i = i + 1; };
+    i
+}
+h_sum :: (s: str) -> u64 {
+    n := strlen(s);
+    p := ^[512]u8.(rawptr.(s));
+    acc : u64 = 7;
+    i : usize = 0;
+    while i < n { acc = (acc * 31 + u64.(p^[i])) % 1000000007; i = i + 1; };
+    acc
+}
+h_at :: (s: str, k: usize) -> u8 {
+    p := ^[512]u8.(rawptr.(s));
+    p^[k]
+}
+h_eq :: (a: str, b: str) -> bool { strcmp(a, b) == 0 }
+"""
+
+
+def make_str_program(seed, idx, ngroups=4):
+    """(i) a str comptime global read by other comptime blocks, (ii) a function with a local str comptime block called from comptime code and at run
+    time. Readers: length (libc strlen / byte loop), checksum over all bytes, byte at an index, equality with a literal. Each reader is printed as
+    evaluated inside comptime AND as evaluated at run time over the comptime str; the run-time copy applies the same reader to the literal. The str
+    itself is printed too (before or after its readers). -> (files, metas)"""
+    rng = C.Rng(seed, 70000 + idx)
+    env = G.Env(rng)
+    T_USIZE, T_U64, T_U8 = G.t_int("usize"), G.t_int("u64"), G.t_int("u8")
+    globs, fns, blks, metas = [], [], [], []
+    k = 0
+    for g in range(ngroups):
+        text = ""
+        while len(text) < 2:
+            text = G.gen_str(rng)
+        lit = G.str_lit(text)
+        fns.append(f"sf_{g} :: () -> str {{ {lit} }}")
+        kind = rng.pick(["global", "global", "fn_local"])
+        if kind == "global":
+            decl = rng.pick([f"BAN_{g} :: comptime {{ {lit} }};", f"BAN_{g} :: comptime {{ sf_{g}() }};", f"BAN_{g} : str : comptime {{ {lit} }};",
+                             f"BAN_{g} :: comptime {{ s : str = {lit}; s }};"])
+            globs.append(decl)
+            src_c = f"BAN_{g}"
+        else:
+            decl = rng.pick([f"tag_{g} :: () -> str {{ comptime {{ {lit} }} }}", f"tag_{g} :: () -> str {{ x :: comptime {{ {lit} }}; x }}",
+                             f"tag_{g} :: () -> str {{ x := comptime {{ sf_{g}() }}; x }}"])
+            fns.append(decl)
+            src_c = f"tag_{g}()"
+        src_r = f"sf_{g}()"
+        group = []
+        # the str itself
+        m = new_meta(k, "str_" + kind, "reread", {"str_printed"}, G.T_STR, text)
+        m["src"] = {"comptime": decl[:400], "run_time": src_r}
+        group.append((m, ["vr_flush();", f"{env.pr(G.T_STR)}({k * 1000}, {src_r});", "vr_flush();", f"{env.pr(G.T_STR)}({k * 1000 + 500}, {src_c});"]))
+        k += 1
+        bs = text.encode()
+        acc = 7
+        for ch in bs:
+            acc = (acc * 31 + ch) % 1000000007
+        at = rng.below(len(bs))
+        other = text[:-1] + ("x" if text[-1] != "x" else "y")
+        readers = [("len", T_USIZE, len(bs), "h_len({S})"), ("len_loop", T_USIZE, len(bs), "h_len2({S})"), ("checksum", T_U64, acc, "h_sum({S})"),
+                   (f"byte_at", T_U8, bs[at], f"h_at({{S}}, {at})"), ("eq_same", G.T_BOOL, True, f"h_eq({{S}}, {lit})"),
+                   ("eq_other", G.T_BOOL, False, f"h_eq({{S}}, {G.str_lit(other)})"), ("len_twice", T_USIZE, 2 * len(bs), "(h_len({S}) + h_len2({S}))")]
+        for rname, T, val, tmpl in rng.sample(readers, rng.range(2, 4)):
+            ce, re_ = tmpl.replace("{S}", src_c), tmpl.replace("{S}", src_r)
+            cpl = rng.pick(["glob", "glob", "loc_const", "loc_mut", "inline", "in_fn"])
+            m = new_meta(k, f"comptime_reads_str_{kind}/{cpl}", "reread", {rname}, T, val, reps=2)
+            m["src"] = {"comptime": f"comptime {{ {ce} }}", "str": decl[:300], "run_time": re_}
+            BR, BC = k * 1000, k * 1000 + 500
+            pr = env.pr(T)
+            lines = ["vr_flush();", f"rt_{k} : {T.name} = {re_};", f"{pr}({BR}, rt_{k});", "vr_flush();"]
+            if cpl == "glob":
+                globs.append(f"RD_{k} :: comptime {{ {ce} }};")
+                lines.append(f"{pr}({BC}, RD_{k});")
+            elif cpl == "loc_const":
+                lines += [f"x_{k} :: comptime {{ {ce} }};", f"{pr}({BC}, x_{k});"]
+            elif cpl == "loc_mut":
+                lines += [f"x_{k} := comptime {{ {ce} }};", f"{pr}({BC}, x_{k});"]
+            elif cpl == "inline":
+                lines.append(f"{pr}({BC}, comptime {{ {ce} }});")
+            else:
+                fns.append(f"site_{k} :: () -> {T.name} {{ comptime {{ {ce} }} }}")
+                lines.append(f"{pr}({BC}, site_{k}());")
+            lines += [f"c2_{k} : {T.name} = {ce};", f"{pr}({BC}, c2_{k});"]      # the same reader at run time over the comptime str
+            group.append((m, lines))
+            k += 1
+        if rng.chance(1, 2):
+            group = group[1:] + group[:1]          # the str is printed after its readers
+        for m, lines in group:
+            metas.append(m)
+            blks.append(f"blk_{m['k']} :: () {{\n" + indent(lines) + "}")
+    rng.shuffle(globs)
+    main = "main :: () -> i32 {\n" + "".join(f"    blk_{m['k']}();\n" for m in metas) + f"    vr_ev({END_ID});\n    vr_flush();\n    0\n}}"
+    first, second = ([globs, blks] if rng.chance(1, 2) else [blks, globs])
+    parts = [R.PRELUDE + EXTRA_DECLS + STR_HELPERS] + env.pr_texts() + fns + first + [main] + second
+    return {"main.capy": "\n".join(parts) + "\n"}, metas
 
 
 # --------------------------------------------------------------------------- negative programs / probes
@@ -476,9 +688,9 @@ def judge_memcheck(files, padfree, p):
 def run_job(job):
     kind, work, seed, idx = job[:4]
     try:
-        if kind == "prog":
-            files, metas = make_program(seed, idx)
-            d = os.path.join(work, f"p{idx}")
+        if kind in ("prog", "tprog", "sprog"):
+            files, metas = {"prog": make_program, "tprog": make_table_program, "sprog": make_str_program}[kind](seed, idx)
+            d = os.path.join(work, f"{kind}{idx}")
             c = compile_retry(d, files)
             r = R.link_and_run(d, c.obj, cpu_s=10) if c.accepted else None
             res = judge_program(files, metas, c, r)
@@ -542,6 +754,8 @@ def run(tier, seed):
     nmem = 6 if tier == "quick" else 32
     jobs = [("mem", work, seed, i) for i in range(nmem)]
     jobs += [("neg", work, seed, i, nt) for i, nt in enumerate(NEGATIVES)] + [("probe", work, seed, i, nt) for i, nt in enumerate(PROBES)]
+    nspecial = 12 if tier == "quick" else 120
+    jobs += [("tprog", work, seed, i) for i in range(nspecial)] + [("sprog", work, seed, i) for i in range(nspecial)]
     jobs += [("prog", work, seed, i) for i in range(nprog)]
     results = C.pmap(run_job, jobs)
     viol, inconc, samples, cnt, distinct = [], [], [], {}, set()
@@ -552,8 +766,9 @@ def run(tier, seed):
             cnt[k] = cnt.get(k, 0) + v
         viol += res["viol"]
         inconc += [f"{res['kind']} {res['idx']}: {s}" for s in res["inconc"]]
-        if res["kind"] == "prog":
-            cnt["programs"] = cnt.get("programs", 0) + 1
+        if res["kind"] in ("prog", "tprog", "sprog"):
+            pk = {"prog": "programs", "tprog": "table_programs", "sprog": "str_reread_programs"}[res["kind"]]
+            cnt[pk] = cnt.get(pk, 0) + 1
             evals += res["cnt"].get("blocks_judged", 0) + res["cnt"].get("side_effect_blocks_judged", 0)
             for shp, pl, mode, feats, kind in res["ok"]:
                 distinct.add((shp, pl, mode, feats))
@@ -561,8 +776,8 @@ def run(tier, seed):
                 place_seen[pl] = place_seen.get(pl, 0) + 1
             if any(v["key"] == "internal_error" for v in res["viol"]):
                 evals += 1
-            if res["sample"] and len(samples) < 4:
-                samples.append(res["sample"])
+            if res["sample"] and sum(1 for x in samples if x["family"] == res["kind"]) < (2 if res["kind"] == "prog" else 1):
+                samples.append(dict(res["sample"], family=res["kind"]))
         else:
             evals += 1 if (res["viol"] or not res["inconc"]) else 0
     cnt.update({f"result_kind_{k}": v for k, v in sorted(kinds_seen.items())})
